@@ -167,6 +167,10 @@ func possibleMarker(o *Outcome, key string, before *UpRec, fromT int64, hfp int)
 		if r.Res == nil || r.Res.Aborted || (r.Res.Status >= 500 && r.Res.Header.Get("X-Sim-Echo") == "") {
 			return true
 		}
+		// so does one whose client went away while it held the role (answered 400 by pike)
+		if r.Cancelled && r.Res.Header.Get("X-Sim-Echo") == "" {
+			return true
+		}
 	}
 	return false
 }
